@@ -31,6 +31,24 @@ def glob_field(a):
     return isinstance(a, tuple) and a and a[0] == 'm' and a[2].endswith('.GlobalSymbols')
 
 
+def _effective_body_proc(P, f):
+    """The function in which the processor f opens its symbol space: f itself, or a helper that f calls on every path
+    with its own tag as argument and that contains the push (a refactoring may move the block there)."""
+    if any(is_push_new(ex) for b, i, ln, ex in f.elems()) or not f.params:
+        return f
+    tag = ('p', f.params[0]['name'])
+    for b, i, ln, c in f.calls():
+        cn = callee_name(c)
+        g = P.resolve(f.unit, cn) if cn else None
+        if g is None or g.unit is not f.unit or not c[2] or strip(c[2][0]) != tag:
+            continue
+        if any(is_push_new(ex) for b2, i2, l2, ex in g.elems()):
+            called_always = f.must_pass(f.entry, -1, lambda ex, cn=cn: any(m[0] == 'call' and callee_name(m) == cn for m in walk_own(ex)))[0]
+            if called_always:
+                return g
+    return f
+
+
 def rule_r1(chk, facts, P):
     chk.rule('C11-R1', 'MACRO/IRP/IRPC/REPT/WHILE processors: PushLocHandle(GetLocHandle()) is executed exactly on the '
              'paths on which the first body line of an iteration is delivered and GlobalSymbols is false; for repeating '
@@ -38,6 +56,7 @@ def rule_r1(chk, facts, P):
              min_instances=12)
     for pn in BODY_PROCS:
         f = facts.func('as.c', pn)
+        f = _effective_body_proc(P, f)
         pushes = [(b, i, ln) for b, i, ln, ex in f.elems() if is_push_new(ex)]
         chk.ob('C11-R1', 'as.c:%s:opens-space' % pn, len(pushes) == 1, f.loc(), 'one push site' if len(pushes) == 1 else
                '%d sites open a private symbol space' % len(pushes))
@@ -104,7 +123,7 @@ def rule_r1(chk, facts, P):
                'first delivered body line and clear tag->First then; an expansion with an empty body never does)' % r.name)
     # every processor that opens a space records it in tag->First
     for pn in BODY_PROCS:
-        f = facts.func('as.c', pn)
+        f = _effective_body_proc(P, facts.func('as.c', pn))
         for b, i, ln, ex in f.elems():
             if is_push_new(ex):
                 def clears(e2):
